@@ -2,11 +2,13 @@
   Oracle for C04 (model store).  STATEFUL: the oracle carries the model store of the current history.
 
     reset                                                   -> ok          (empty store)
-    variant <fixAlias 0|1> <fixResolve 0|1> <fixReturn 0|1> -> ok          (what the driver's probes found)
-    meta <contenthex> <archhex> <mtypehex> <ftypehex>       -> ok          (GGUF metadata the real decoder reported)
+    variant <fixAlias 0|1> <fixResolve 0|1> <fixReturn 0|1> <fixKeep 0|1>
+                                                            -> ok          (what the driver's probes found)
+    meta <contenthex> <archhex> <mtypehex> <ftypehex> <autoTemplate hex|~> <autoParams hex|~>
+                                                            -> ok          (what the real decoder / template.Named reported)
     upload <c|d> <hex> <contenthex> ## <obs>
     create <name4> from <name4> | files <k> {<c|d> <hex>}*   then
-           <tmplhex|~> <0|1> <syshex|~> <np> {<keyhex> <valhex>}* ## <obs>
+           <tmplhex|~> <0|1> <syshex|~> <nl> {<licensehex>}* <np> {<keyhex> <valhex>}* ## <obs>
     copy <name4> <name4> ## <obs>
     delete <name4> ## <obs>
     prune ## <obs>
@@ -69,8 +71,9 @@ def pCreate : TP CreateReq := do
   let tmpl ← pOptBytes
   let tok1 ← nat
   let sys ← pOptBytes
+  let lics ← listOf hex
   let params ← listOf pKV
-  pure { name, src, files, template := tmpl.map (fun t => (t, tok1 != 0)), system := sys, params }
+  pure { name, src, files, template := tmpl.map (fun t => (t, tok1 != 0)), system := sys, licenses := lics, params }
 
 def showName (n : Name) : String := s!"{n.host}/{n.ns}/{n.model}:{n.tag}"
 
@@ -156,14 +159,16 @@ def splitObs (toks : List String) : List String × String :=
 def handle (s : OState) (toks : List String) : OState × String :=
   match toks with
   | ["reset"] => ({ s with st := Store.empty }, "ok")
-  | ["variant", a, b, c] => ({ s with v := ⟨a == "1", b == "1", c == "1"⟩ }, "ok")
+  | ["variant", a, b, c, d] => ({ s with v := ⟨a == "1", b == "1", c == "1", d == "1"⟩ }, "ok")
   | "meta" :: rest =>
     match runTP (do
       let c ← hex
       let a ← hex
       let m ← hex
       let f ← hex
-      pure (c, Meta.mk (bstr a) (bstr m) (bstr f))) rest with
+      let aT ← pOptBytes
+      let aP ← pOptBytes
+      pure (c, Meta.mk (bstr a) (bstr m) (bstr f) (aT.map (fun t => (t, aP))))) rest with
     | some (c, mt) => ({ s with metas := aset s.metas (sha c) mt }, "ok")
     | none => (s, "bad-op")
   | "show" :: rest =>
